@@ -73,6 +73,7 @@ class ClassInfo:
         self.synthetic = {}  # methods bound by setattr loops: name -> (loopnode, factory FuncInfo/None)
         self.base_exprs = list(node.bases)
         self._mro = None
+        self.local = False
 
     @property
     def file(self):
@@ -199,6 +200,7 @@ class SourceModel:
                 elif isinstance(st, ast.ClassDef):
                     qn = f"{prefix}{st.name}"
                     ci = ClassInfo(m, qn, st)
+                    ci.local = parent is not None  # defined inside a function: not exported
                     if parent is None and cls is None:
                         m.classes[st.name] = ci
                     else:
